@@ -93,6 +93,8 @@ def generate(tier, seed, work, stats):
         cases.append(dict(kind="cfg", prods=c["prods"], vpool="clash" if i % 3 == 2 else "upper", tpool="ab", family=c["family"]))
     for c in cases:
         c["L"] = L(tier)
+    # P3: the calls the repository's own tests make, re-judged by the trace specification
+    cases += core.record_tests(["/repo/pyformlang"], work, {"to_final_state", "to_empty_stack", "to_cfg", "to_pda"}, stats)
     return cases
 
 
